@@ -206,6 +206,21 @@ func specClose(v float64, o numObs, g float64) (key, detail string) {
 // (number, scale) denotes exactly k*10^-d and GetValue returns the double nearest to it. (Clause (b)
 // is then met with error 0 against the decimal itself.)
 func specDecimal(k int64, d int, v float64, o numObs, g float64) (key, detail string) {
+	key, detail = specDecimalBelow(k, d, v, o, g)
+	if key != "" && key != "C19/scaled-malformed" && d >= 0 && d <= 4 && absI(k) >= uint64(numLeastFailing[d]) {
+		// from the least decimal that does not survive on (16 significant digits; Props/C19
+		// c19_scaled_exact_least_failures) a failure is the known limit of binary64, not a new defect
+		return "C19/decimal-from-least-failing-on", detail
+	}
+	return
+}
+
+// numLeastFailing[d]: the least k >= 2^50 for which k*10^-d does not survive the (repaired) conversion; kernel-checked
+// in Spine/Props/C19.lean (c19_scaled_exact_least_failures, c19_scaled_exact_needs_bound), re-established by the
+// directed search of every run
+var numLeastFailing = [5]int64{1<<53 + 1, 5629499534213123, 3518437208883202, 4398046511104021, 2748779069440004}
+
+func specDecimalBelow(k int64, d int, v float64, o numObs, g float64) (key, detail string) {
 	if o.number == numNil || o.scale < -30 || o.scale > 30 {
 		return "C19/scaled-malformed", fmt.Sprintf("%de-%d: number/scale missing or absurd (%d, %d)", k, d, o.number, o.scale)
 	}
@@ -1816,6 +1831,90 @@ func TestNumeric(t *testing.T) {
 	r.Traces += len(decJobs)
 	r.Info["random_decimal_spec_failures"] = decFails
 	phase("random-decimals")
+
+	// ---- (2b) directed search between the proved bound 2^50 and the least decimal that does not survive: the
+	//      conversion can only start to fail where k or v = k*10^-d crosses a power of two (the spacing of doubles
+	//      doubles there); within a segment the outcome is periodic in k with a period of at most 4*10^d. The first W
+	//      values of every segment below the least failing decimal must be exact and agree with the model; the
+	//      least failing decimal itself must fail (unless the member truncates, which keeps three of them).
+	{
+		W := int64(h.Scale(12000, 400000))
+		type seg struct {
+			d      int
+			k0, k1 int64
+		}
+		var segs []seg
+		for dd := 0; dd <= 4; dd++ {
+			var cps []int64
+			p10 := int64(numPow10f[dd])
+			for i := uint(50); i <= 53; i++ {
+				cps = append(cps, int64(1)<<i)
+			}
+			for e := uint(30); e <= 53; e++ {
+				if c := new(big.Int).Mul(big.NewInt(p10), new(big.Int).Lsh(big.NewInt(1), e)); c.IsInt64() && c.Int64() > 1<<50 && c.Int64() < 1<<53 {
+					cps = append(cps, c.Int64())
+				}
+			}
+			sort.Slice(cps, func(i, j int) bool { return cps[i] < cps[j] })
+			for _, c := range cps {
+				if c >= numLeastFailing[dd] || c >= 1<<53 {
+					continue
+				}
+				k1 := c + W - 1
+				if k1 >= numLeastFailing[dd] {
+					k1 = numLeastFailing[dd] - 1
+				}
+				for k0 := c; k0 <= k1; k0 += batch {
+					e := k0 + batch - 1
+					if e > k1 {
+						e = k1
+					}
+					segs = append(segs, seg{dd, k0, e})
+				}
+				// and the values just below the critical point
+				segs = append(segs, seg{dd, c - 64, c - 1})
+			}
+		}
+		ss := numParallel(args, len(segs), func(s *numStats, dr *h.Driver, i int) {
+			g := segs[i]
+			var sb strings.Builder
+			fmt.Fprintf(&sb, "S %d", g.d)
+			for k := g.k0; k <= g.k1; k++ {
+				fmt.Fprintf(&sb, " %d", k)
+			}
+			ans := strings.Split(dr.AskWithin(sb.String(), numRangeTimeout), ";")
+			if int64(len(ans)) != g.k1-g.k0+1 {
+				panic("drv_num: batch answer of wrong length")
+			}
+			for k := g.k0; k <= g.k1; k++ {
+				if p := numParse(k, g.d); p != numDec(k, g.d) {
+					panic(fmt.Sprintf("harness: %de-%d: quotient and ParseFloat differ", k, g.d))
+				}
+				numOneDecimal(s, k, g.d, ans[k-g.k0])
+				numOneDecimal(s, -k, g.d, "")
+			}
+		})
+		nDir := 0
+		for _, v := range ss.evals {
+			nDir += v
+		}
+		ss.flush(r)
+		r.Traces += len(segs)
+		ws := newNumStats()
+		lost := 0
+		for dd := 1; dd <= 4; dd++ {
+			numRunOp(ws, d, fmt.Sprintf("scaled %d %d", numLeastFailing[dd], dd))
+			numRunOp(ws, d, fmt.Sprintf("scaled %d %d", -numLeastFailing[dd], dd))
+		}
+		numRunOp(ws, d, "scaled 9007199254740992 0")
+		lost = ws.fails["C19/decimal-from-least-failing-on"]
+		ws.flush(r)
+		if !cfgT && lost != 8 {
+			r.Mismatch([]string{fmt.Sprintf("scaled %d 2", numLeastFailing[2])}, fmt.Sprintf("%d of the 8 least failing decimals (both signs) are lost", lost), "all 8 are lost by the member that rounds", "the least failing decimals of Props/C19 c19_scaled_exact_least_failures on the real code")
+		}
+		r.Info["directed_search_above_2^50"] = fmt.Sprintf("%d decimals (both signs): the first %d values of every segment of k in [2^50, least failing decimal) between powers of two of k and of v = k*10^-d, and 64 values below each boundary, compared with the model and judged by clause (a); least failing decimals %v: %d of 8 (both signs, d = 1..4) lost on this tree", nDir, W, numLeastFailing, lost)
+		phase("directed-search")
+	}
 
 	var fltJobs [][]uint64
 	for i := 0; i < nFlt; i += batch {
